@@ -329,6 +329,50 @@ pub fn read_routes(ctx: &mut Ctx, prop_rt: &str, ty: i32, shp: &[u8], shx: Optio
                 Err(p) => ctx.fail(prop_rt, "panic", p.site(), format!("read_as/{}: {}", tag, p.text())),
             }
         }
+        // sequential reading through the Iterator adaptors a caller may use instead of next():
+        // nth(1) gives shape 1, then step_by(2) (nth(1) again and again) shapes 2, 4, 6, ...
+        if n >= 2 {
+            let world6 = mk();
+            if let Open::Ok(mut r6) = open(&world6, with_index, rstack) {
+                let r = guarded(|| {
+                    let mut it = r6.iter_shapes();
+                    let mut got: Vec<Item> = Vec::new();
+                    if let Some(x) = it.nth(1) {
+                        got.push(x.map(|s| capture(&s)).map_err(|e| classify(&e)));
+                        for x in it.step_by(2).take(cap) {
+                            got.push(x.map(|s| capture(&s)).map_err(|e| classify(&e)));
+                        }
+                    }
+                    got
+                });
+                match r {
+                    Ok(got) => {
+                        let mut want: Vec<usize> = vec![1];
+                        want.extend((2..n).step_by(2));
+                        let route = format!("nth+step_by/{}", tag);
+                        if got.len() != want.len() {
+                            ctx.fail(prop_rt, "same-count", route.clone(), format!("iter_shapes(): nth(1) then step_by(2) yielded {} items over {} shapes, expected {}", got.len(), n, want.len()));
+                        }
+                        for (g, i) in got.iter().zip(want.iter()) {
+                            match g {
+                                Ok(g) => {
+                                    if let Some(d) = diff_read(&expected[*i], g, *i, &area) {
+                                        ctx.fail(prop_rt, "same-shape", route.clone(), format!("nth(1) then step_by(2): the item expected to be shape {}: {}", i, d));
+                                        break;
+                                    }
+                                }
+                                Err(e) => {
+                                    ctx.fail(prop_rt, "no-error", route.clone(), format!("nth(1) then step_by(2): shape {} came back as {:?}", i, e));
+                                    break;
+                                }
+                            }
+                        }
+                    }
+                    Err(p) => ctx.fail(prop_rt, "panic", p.site(), format!("nth+step_by/{}: {}", tag, p.text())),
+                }
+            }
+            ctx.stats.absorb_world(&world6.borrow());
+        }
         if with_index {
             // C04 behaviour on a fresh reader: count, random access, size hints
             let world5 = mk();
